@@ -61,7 +61,19 @@ def annotate_half(R, func, loop, axis, other_loops):
     else:
         ok = (is_ext_call(key) and singleton(key.args[0])) or raw_closure(fkey, '_Properties', 'prime')
         want = f'{p_map}[{p_ctx}.extension([{x}], raw=True)]'
-    R.check(ok, 'LABELLING', func, look[0], f'{slot}: own concept looked up by its extent', want, src(key))
+    key_names = {n.id for n in ast.walk(fkey) if isinstance(n, ast.Name)}
+    key_sources = [fkey] + [s.value for s in loop.body if isinstance(s, ast.Assign)
+                            and any(isinstance(t, ast.Name) and t.id in key_names for tg in s.targets for t in ast.walk(tg))]
+    via_lookup = [n for ks in key_sources for n in ast.walk(ks) if (isinstance(n, ast.Call) and chain(n.func) == [p_ctx, '__getitem__'])
+                  or (isinstance(n, ast.Subscript) and name_is(n.value, p_ctx))]
+    if not ok and via_lookup:
+        # a recognised wrong route: Context.__getitem__ reads its key as object labels first; the derived labels of the other kind
+        # only work through the KeyError fallback, and the *empty* label set is accepted as the empty object set
+        R.bad('LABELLING', func, look[0], f'{slot}: own concept looked up by its extent', want, src(key)[:100],
+              extra={'consequence': 'for a row/column without any cross the derived label set is empty and closes to the bottom instead of the top concept: '
+                                    'the label lands on the wrong node'})
+    else:
+        R.check(ok, 'LABELLING', func, look[0], f'{slot}: own concept looked up by its extent', want, src(key))
     # append-or-create
     ifs = [s for s in loop.body if isinstance(s, ast.If)]
     if len(ifs) != 1:
@@ -112,9 +124,8 @@ def annotate_half(R, func, loop, axis, other_loops):
             f'for c in {touched}: c.{axis} = tuple(c.{axis})', src(fin[0])[:100] if fin else 'no finalisation loop')
 
 
-def run(model, R):
+def annotate_rules(model, R):
     func = model.func('lattices.Data._annotate')
-    R.floor('LABELLING', 12)
     loops = [s for s in func.body if isinstance(s, ast.For)]
     halves = {}
     for l in loops:
@@ -129,6 +140,12 @@ def run(model, R):
             R.unknown('LABELLING', func, func.node, f'{axis} labels', f'{len(ls)} labelling loops writing .{axis}')
             continue
         R.guard('LABELLING', func, f'{axis} labels', annotate_half, R, func, ls[0], axis, loops)
+
+
+def run(model, R):
+    R.floor('LABELLING', 12)
+    func = model.func('lattices.Data._annotate')
+    R.guard('LABELLING', None, '_annotate', annotate_rules, model, R)
     # class-level defaults immutable
     pair = model.cls('lattice_members.Pair')
     for axis in ('objects', 'properties'):
@@ -208,4 +225,9 @@ def run(model, R):
             R.check(ok, 'ATOMS', init, a, 'ranges over the lattice atoms in order, listing the atom itself', f'for a in {init.params[0]}.atoms', src(g.iter))
     from .common import no_unpickle_shortcut
     R.guard('LABELLING', None, '_init call sites', no_unpickle_shortcut, model, R, 'LABELLING')
+    # "extent = union of the object labels in the downset, intent = union of the property labels in the upset" is stated over
+    # the traversals: their template (C09) is a dependency
+    from . import c09
+    R.guard('TRAVERSAL', None, 'iterunion', c09.iterunion_template, model, R)
+    R.guard('DIRECTION', None, 'call sites', c09.call_sites, model, R)
     return __doc__.strip()
